@@ -51,6 +51,21 @@ def run(tier):
                         file=v.file(), line=d["ln"])
     check_wrappers(res, facts, entries)
     check_base64(res, facts)
+    # R9: alterations of the footer segment / segment count are caught by the textual gates of parse_raw_token
+    from .. import gates as G
+    g = G.gates(facts)
+    for pr in g.problems:
+        res.violate("C03.R9", "Paseto::parse_raw_token", pr[1], pr[2], line=pr[3])
+    for verdict, what in ((g.footer_gate_ok(), "an edited / added footer segment is rejected: 4-segment tokens pass the equal edge of the full-length footer comparison"),
+                          (g.count_gate_ok(), "extended tokens are rejected: only 3- or 4-segment tokens are accepted"),
+                          (g.payload_ok(), "the payload bytes are the strict base64url decoding of segment 2")):
+        ok, why = verdict
+        res.oblige(ok)
+        if ok:
+            res.inst("C03.R9", what)
+        else:
+            res.violate("C03.R9", g.body["id"] if g.body else "Paseto::parse_raw_token", what.split(":")[0], why or "gate not established", file=g.v.file() if g.body else None, line=g.body["line"] if g.body else None)
+    res.floor("C03.R9", 3)
     res.floor("C03.R1", 8)
     res.floor("C03.R2", 3)
     res.floor("C03.R3", 1)
